@@ -1660,3 +1660,106 @@ func ruleMergeBlock(c *Ctx, r *Report) {
 	}
 	r.analysed(rule, fmt.Sprintf("%d merge callbacks of assertMerge", n))
 }
+
+// ---------------------------------------------------------------------------
+// R-RAW-RENAMED (C10, C09; added with fix F58): "clause/2 and retract/1 see a variant of exactly that term" -
+// a variant, never the stored term itself: unifying with the stored term binds ITS variables in the caller's
+// environment, and whatever else refers to that term (the sibling alternatives of a clause with a top-level
+// disjunction share it) is seen instantiated. Outside the compiler, every read of a clause's source-term field
+// flows only into the copier (renamedCopy) or into the identity function (id, used to recognise one and the same
+// clause); nothing else - no unification, no rulify, no continuation - receives it.
+func ruleRawRenamed(c *Ctx, r *Report) {
+	const rule = "R-RAW-RENAMED"
+	desc := "the stored source term of a clause leaves the database only as a renamed copy"
+	copier, idf := c.fn("renamedCopy"), c.fn("id")
+	if copier == nil || idf == nil {
+		r.undecided(rule, "anchor:renamedCopy/id", "-", desc, "not found")
+		return
+	}
+	n := 0
+	for _, fn := range c.LibFuncs() {
+		if funcPkg(fn) != c.Engine {
+			continue
+		}
+		k := 0
+		eachInstr(fn, func(in ssa.Instruction) {
+			var v ssa.Value
+			switch x := in.(type) {
+			case *ssa.UnOp:
+				if fa, ok := x.X.(*ssa.FieldAddr); ok && x.Op == token.MUL && isEngNamed(fa.X.Type(), "clause") && fieldName(fa) == "raw" {
+					v = x
+				}
+			case *ssa.Field:
+				if isEngNamed(x.X.Type(), "clause") {
+					if st, ok := x.X.Type().Underlying().(*types.Struct); ok && st.Field(x.Field).Name() == "raw" {
+						v = x
+					}
+				}
+			}
+			if v == nil {
+				return
+			}
+			n++
+			k++
+			key := fmt.Sprintf("%s/clause.raw#%d", fname(fn), k)
+			bad := ""
+			var visit func(v ssa.Value, depth int)
+			seen := map[ssa.Value]bool{}
+			visit = func(v ssa.Value, depth int) {
+				if seen[v] || depth > 8 || bad != "" {
+					return
+				}
+				seen[v] = true
+				for _, ref := range *v.Referrers() {
+					switch x := ref.(type) {
+					case *ssa.DebugRef:
+					case *ssa.Phi:
+						visit(x, depth+1)
+					case *ssa.ChangeInterface, *ssa.MakeInterface, *ssa.ChangeType:
+						visit(x.(ssa.Value), depth+1)
+					case *ssa.Store:
+						// a local (or captured) variable: follow its loads
+						if cell := c.varCell(x.Addr); cell != nil && x.Val == v {
+							for _, fn2 := range withAnon(topFunc(fn)) {
+								eachInstr(fn2, func(i2 ssa.Instruction) {
+									if ld, ok := i2.(*ssa.UnOp); ok && ld.Op == token.MUL && c.varCell(ld.X) == cell {
+										visit(ld, depth+1)
+									}
+								})
+							}
+						} else {
+							bad = "stored to " + valName(x.Addr)
+						}
+					case ssa.CallInstruction:
+						callee := x.Common().StaticCallee()
+						if callee == copier || callee == idf {
+							continue
+						}
+						bad = "passed to " + calleeName(x.Common())
+					case *ssa.MakeClosure:
+						// captured by value: follow the free variable inside the closure
+						if cl, ok := x.Fn.(*ssa.Function); ok {
+							for i, b := range x.Bindings {
+								if b == v && i < len(cl.FreeVars) {
+									visit(cl.FreeVars[i], depth+1)
+								}
+							}
+						}
+					default:
+						bad = fmt.Sprintf("used by %T", ref)
+					}
+				}
+			}
+			visit(v, 0)
+			if bad == "" {
+				r.ok(rule, key, c.at(in), desc, "flows only into renamedCopy / id", true)
+			} else {
+				r.bad(rule, key, c.at(in), desc, "the stored term is "+bad+" without being copied: a unification binds the variables of the stored term itself (retract((d(1) :- B)) instantiates what clause/2 then shows for the sibling alternative)")
+			}
+		})
+	}
+	if n == 0 {
+		r.undecided(rule, "scan/clause.raw", "-", desc, "no read of clause.raw found")
+	}
+	r.analysed(rule, fmt.Sprintf("%d reads of clause.raw", n))
+}
